@@ -1,5 +1,8 @@
 #pragma once
 
+#include <crab/numbers/bignums.hpp>
+#include <type_traits>
+
 #include <crab/domains/sign.hpp>
 #include <crab/support/debug.hpp>
 #include <crab/support/stats.hpp>
@@ -562,8 +565,18 @@ sign<Number> sign<Number>::operator/(const sign<Number> &o) const {
     return top();
   } else {
     // Once we exclude top, bottom, zero, and non-zero
-    // signed division is like multiplication
-    return (*this) * o;
+    // signed division is like multiplication ...
+    sign<Number> res = (*this) * o;
+    // ... except that over the integers the quotient of two
+    // non-zero numbers can be zero (e.g., 1/2).
+    if (std::is_same<Number, ikos::z_number>::value) {
+      if (res.greater_than_zero()) {
+        return mk_greater_or_equal_than_zero();
+      } else if (res.less_than_zero()) {
+        return mk_less_or_equal_than_zero();
+      }
+    }
+    return res;
   }
 }
 
